@@ -1,0 +1,35 @@
+//go:build verif
+
+// Contracts checked by /verif/gowp. This file contains comments only and is compiled only
+// with -tags verif.
+
+package revision
+
+// Teardown of a package revision (C08): the finalizer is removed only after the revision
+// took itself out of the dependency lock; RemoveSelf removes exactly the first lock entry
+// carrying the revision's name and writes nothing when there is none.
+
+//@ func (*revision.Reconciler).Reconcile
+//@ props C08
+//@ ghost lockRemoved bool = false
+//@ let $pr = result field:revision.Reconciler.newPackageRevision
+//@ site (revision.DependencyManager).RemoveSelf(_, _, $o)
+//@   update lockRemoved = err == nil
+//@ site (resource.Finalizer).RemoveFinalizer(_, _, $o)
+//@   assert [C08:finalizer-only-when-deleted] $o == $pr && meta.WasDeleted($pr)
+//@   assert [C08:finalizer-after-lock-removal] lockRemoved
+
+//@ func (*revision.PackageDependencyManager).RemoveSelf
+//@ props C08
+//@ site (client.Reader).Get(_, _, _, $obj)
+//@   bind $old = as($obj, *v1beta1.Lock).Packages
+//@   bind $geterr = err
+//@ loop range lock.Packages
+//@   invariant [C08:no-earlier-match] forall j :: 0 <= j && j < done ==> $old[j].Name != pr.GetName()
+//@   invariant [C08:lock-untouched-in-loop] lock.Packages == $old && writes == old(writes)
+//@ site (client.Writer).Update(_, _, $o)
+//@   assert [C08:removes-self] $o == lock && len(lock.Packages) == len($old) - 1 && $old[i].Name == pr.GetName()
+//@   assert [C08:keeps-earlier] forall j :: 0 <= j && j < i ==> lock.Packages[j].Name == $old[j].Name && lock.Packages[j].Name != pr.GetName()
+//@   assert [C08:keeps-later] forall j :: i <= j && j < len(lock.Packages) ==> lock.Packages[j].Name == $old[j + 1].Name
+//@ ensures [C08:absent-means-no-write] err == nil && writes == old(writes) ==>
+//@        (call("k8s.io/apimachinery/pkg/api/errors.IsNotFound", $geterr) || forall j :: 0 <= j && j < len($old) ==> $old[j].Name != pr.GetName())
